@@ -215,6 +215,9 @@ func skipKnownPipelineHang(env *fw.Env, engine string, mo *m.Model) bool {
 }
 
 func hasDuplicateDirectOperands(mo *m.Model) bool {
+	// the recorded pipeline / weighted ListObjects findings live on relations whose rewrite names the same
+	// operand twice: the direct assignment (API-only shape) or - same deadlock of the pipeline's cycle
+	// group - the same computed relation / tuple-to-userset under one operator (r0 from parent or r0 from parent)
 	for _, td := range mo.Types {
 		for _, r := range td.Relations {
 			dup := false
@@ -230,6 +233,16 @@ func hasDuplicateDirectOperands(mo *m.Model) bool {
 				})
 				if cnt >= 2 {
 					dup = true
+				}
+				seen := map[string]bool{}
+				for _, ch := range n.Children {
+					if ch.Kind == m.Computed || ch.Kind == m.TTU {
+						k := ch.Kind + "|" + ch.Tupleset + "|" + ch.Rel
+						if seen[k] {
+							dup = true
+						}
+						seen[k] = true
+					}
 				}
 			})
 			if dup {
